@@ -516,7 +516,7 @@ theorem InvCM.dead {K : Nat} {v : View} {st : St} (h : InvCM K v st) {e : Nat} (
 
 /-- **the re-run of an effect keeps the invariant**, wherever the effect lives: `rs'` is the reactive
 state after the effect's body ran (every other effect kept its stable part), `w` the value it stored -/
-theorem InvCM.run {K : Nat} {v : View} {st : St} (h : InvCM K v st) (hw : v.wf K = true) (hc : v.coreS = true)
+theorem InvCM.run {K : Nat} {v : View} {st : St} (h : InvCM K v st) (hre : RerunOK K v)
     {e : Nat} (hke : K ≤ e) (hie : IsEff st e)
     (healive : (st.rs.get e).alive = true) (hedone : (st.rs.get e).done = false)
     (hwhere : ∀ t, st.root = some t → e ∈ effsOf t ∨ e ∈ zEffs st.zombies)
@@ -554,8 +554,8 @@ theorem InvCM.run {K : Nat} {v : View} {st : St} (h : InvCM K v st) (hw : v.wf K
       · show cur' ((rs'.get e).val.getD 0); rw [hval]; exact hc'
     have hq : ∀ m c, ShowMemo K st m c → ShowMemo K ({ ({ st with rs := rs' } : St) with root := none }) m c :=
       fun m c hq' => hq'
-    have hr := rerunIn_specM (predM_em K) hi0 (e := e) (w := w) (P0 := EM K st) (Q0 := ShowMemo K st)
-      hothers hself hq v t ht.good hw hc hndt
+    have hr := hre hi0 (e := e) (w := w) (P0 := EM K st) (Q0 := ShowMemo K st)
+      hothers hself hq t ht.good hndt
     have hkeep := rerunIn_keeps e w t ({ ({ st with rs := rs' } : St) with root := none }) hm
     have hcnt_e : (zEffs (newZ ({ ({ st with rs := rs' } : St) with root := none })
         (rerunIn e w t ({ ({ st with rs := rs' } : St) with root := none })).2.1)).count e = 0 := by
